@@ -8,6 +8,10 @@ from vt.ref import avm
 def main():
     run.ensure_deps()
     assert avm._selftest()
+    from vt.ref import walks
+    from vt.spec import avm_table
+    assert walks._selftest()
+    assert avm_table.selftest(verbose=False), "AVM table self-test (incl. pyteal cross-check) failed"
     from vt import common
     common.import_tealer()
     print("vt setup ok; tealer from", common.REPO)
